@@ -1,4 +1,5 @@
 import HeraProofs.Props.C05
+import HeraProofs.Props.C05b
 open Hera
 #print axioms Enc.subst_of_match
 #print axioms Enc.match_of_subst
@@ -9,3 +10,6 @@ open Hera
 #print axioms C05_decode_sound
 #print axioms C05_match_subst
 #print axioms C05_range
+#print axioms C05_decode_encode
+#print axioms C05_encode_injective
+#print axioms C05_encode_lt
